@@ -214,6 +214,16 @@ def inventory(repo):
             if 'touched' in e:
                 touched = bool(e['touched'])
             why = 'allow-list: ' + e['why']
+        if kind == 'Guarded' and touched and re.search(r'mutex', decl):
+            # a lock shared by independent handlers must be taken through a scoped guard only: locked by hand, a
+            # path that leaves by an exception keeps it locked and every other handler waits for ever
+            try:
+                text = strip_comments((Path(repo) / 'src' / s['file']).read_text(errors='replace'))
+            except OSError:
+                text = ''
+            sn = re.escape(short_name(name))
+            if re.search(r'\b' + sn + r'\s*\.\s*(lock|unlock|try_lock)\s*\(', text):
+                kind, why = 'Mutable', 'mutex locked / unlocked by hand (no scoped guard): ' + decl[:60]
         inv.append({'name': name, 'kind': kind, 'touched': touched, 'where': f"{s['file']}:{s['line']}", 'why': why})
     if not inv:
         raise TranslateError('no object with static storage duration found at all - scan broken')
